@@ -40,7 +40,8 @@ PROBES = ["interned_default_returned", "init_returned_itself", "incompatible_ini
           "last_namespace_wins", "inheriting_namespace_subclass",
           "namespace_with_converting_constructor", "plain_mixin_among_bases",
           "render_args_subclass", "explicit_none_before_namespaces",
-          "unknown_field_is_another_class_field", "unknown_field_named_like_an_attribute"]
+          "unknown_field_is_another_class_field", "unknown_field_named_like_an_attribute",
+          "base_default_set_as_initial_set"]
 COMPONENTS = {
     "real": ["RenderArgs (__new__/__init__ interning, update, convert, __eq__, __hash__, "
              "__contains__, __getitem__)", "ArgsNamespace (__or__, __ror__, __pos__, update, "
@@ -304,6 +305,11 @@ def run(ch, ctx, fault=None):
                 if init is None and nsl and ch.bool("explicit_none", 0.3):
                     args = [None] + args        # "no initial set", spelt out
                     ctx.probe("explicit_none_before_namespaces")
+                elif init is None and ch.bool("base_set_as_init", 0.15):
+                    # the default set of Renderable itself (it holds nothing and is compatible
+                    # with every class) as the initial set
+                    args = [RenderArgs(Renderable)] + args
+                    ctx.probe("base_default_set_as_initial_set")
                 # the concrete class of a set is immaterial to every law (an application may
                 # subclass RenderArgs): equal sets of different concrete classes are equal
                 ra_cls = RenderArgs
